@@ -144,7 +144,7 @@ impl PubAckProperties {
         let mut reason_string = None;
         let mut user_properties = Vec::new();
 
-        let (properties_len_len, properties_len) = length(bytes.iter())?;
+        let (properties_len_len, properties_len) = length_in_frame(bytes.iter())?;
         bytes.advance(properties_len_len);
         if properties_len == 0 {
             return Ok(None);
